@@ -5,7 +5,7 @@ delegations (depth 1-3, several delegating functionaries of one step, thresholds
 and sublayouts) and every way a sublayout can be bad that the property's quantifier names."""
 import os
 
-from harness import vcore, vscen
+from harness import sublay_tie, vcore, vscen
 from vlib import core
 
 PROPS = ["Props/C06.v"]
@@ -133,8 +133,9 @@ class CallSpy:
 
 
 def run(ctx):
-    n = 2400 if ctx.thorough() else 330
+    n = 3500 if ctx.thorough() else 330
     core.check_props(ctx, PROPS)
+    sublay_tie.run(ctx, 'Tie/C06.v')
     fams = ("ed25519", "rsa", "ecdsa") if ctx.thorough() else ("ed25519",)
     with CallSpy() as spy:
         recs, model = vcore.run_scenarios(ctx, opt_sets(), n, families=fams)
